@@ -27,6 +27,9 @@
 (* (ReadNow) somewhere in between: the answer must be the pointer's slot with  *)
 (* its result stored AS OF SOME INSTANT of the behaviour, or "nothing" if      *)
 (* there was none then - a reader never sees a slot half-way (drift note only).*)
+(* `analyze` readers likewise: checkpointed or not and the changed targets as  *)
+(* of one instant (the work tree does not change while invocations run), or an *)
+(* error exactly while the checkpoint file is torn.                            *)
 EXTENDS Monorail, Json, IOUtils
 
 Tr == ndJsonDeserialize(IOEnv.TRACE)
@@ -37,10 +40,11 @@ MCComp == [p \in {"af", "bf", "cf"} |-> CASE p = "af" -> <<"a", "f">> [] p = "bf
 
 CONSTANT PrefixN
 VARIABLES l, doomed,         \* doomed: invocations the driver has sent SIGKILL to (they die at some instant after that)
-          view                \* view[p]: what reader p saw at its (silent) read instant: -1 not yet, 0 nothing, k slot k
+          view                \* view[p]: what reader p saw at its (silent) read instant ([k |-> "none"]: not yet)
 tvars == <<vars, l, doomed, view>>
 Ev == Tr[l]
 Is(e) == l <= Len(Tr) /\ Ev.e = e
+NoView == [k |-> "none"]
 Consume == l' = l + 1 /\ UNCHANGED <<doomed, view>>
 
 \* checkpoint update: the repository read and the truncation have one hook between them and the next (cp.truncated)
@@ -79,21 +83,28 @@ Event ==
   \* SIGKILL sent: from now on the invocation may die at any instant (silent); `reaped` = the driver has seen it dead
   \/ Is("kill_sent") /\ doomed' = doomed \cup {p} /\ l' = l + 1 /\ UNCHANGED <<vars, view>>
   \* a reader has answered: what it answered is what it saw at its read instant
-  \/ Is("shown") /\ view[p] = (IF Ev.ok THEN Ev.slot ELSE 0) /\ ResultShow(p)
-                 /\ view' = [view EXCEPT ![p] = -1] /\ l' = l + 1 /\ UNCHANGED doomed
+  \/ Is("shown") /\ view[p] = [k |-> "slot", v |-> IF Ev.ok THEN Ev.slot ELSE 0] /\ ResultShow(p)
+                 /\ view' = [view EXCEPT ![p] = NoView] /\ l' = l + 1 /\ UNCHANGED doomed
+  \* `analyze` has answered: checkpointed or not and the changed targets, or an error (unreadable checkpoint)
+  \/ Is("answered") /\ view[p] = (IF Ev.ok THEN [k |-> "ana", set |-> Ev.checkpointed, targets |-> { Ev.targets[i] : i \in DOMAIN Ev.targets }]
+                                             ELSE [k |-> "ana_err"])
+                    /\ Analyze(p) /\ view' = [view EXCEPT ![p] = NoView] /\ l' = l + 1 /\ UNCHANGED doomed
   \/ Is("reaped") /\ inv[p] = Idle /\ UNCHANGED vars /\ Consume
   \* exit: whoever got the lock has finished (silent Finish); whoever did not has lost (silent TryLock) with a lock error
   \/ Is("exit") /\ inv[p] = Idle /\ UNCHANGED vars /\ Consume
 Die(p) == /\ p \in doomed /\ inv[p] # Idle
           /\ IF inv[p].pc \in PastLock THEN Crash(p)
              ELSE inv' = [inv EXCEPT ![p] = Idle] /\ UNCHANGED <<repo, store, cpfile, holder, nruns, nedits, actor, obs>>
-ReadNow(p) == /\ inv[p].pc = "start" /\ inv[p].api = "result_show" /\ view[p] = -1
-              /\ view' = [view EXCEPT ![p] = IF ResultShows(store, N) # 0 THEN store.ptr ELSE 0]
+ReadNow(p) == /\ inv[p].pc = "start" /\ inv[p].api \in Readers /\ view[p] = NoView
+              /\ view' = [view EXCEPT ![p] =
+                    IF inv[p].api = "result_show" THEN [k |-> "slot", v |-> IF ResultShows(store, N) # 0 THEN store.ptr ELSE 0]
+                    ELSE IF cpfile = "torn" THEN [k |-> "ana_err"]
+                    ELSE [k |-> "ana", set |-> repo.cp.set, targets |-> AffectedNow]]
               /\ UNCHANGED <<vars, l, doomed>>
 Silent == \E p \in Procs : \/ ((TryLock(p) \/ Finish(p) \/ Die(p)) /\ UNCHANGED <<l, doomed, view>>)
                             \/ ReadNow(p)
 TNext == Event \/ Silent
-TSpec == Init /\ l = 1 /\ doomed = {} /\ view = [p \in Procs |-> -1] /\ [][TNext]_tvars
+TSpec == Init /\ l = 1 /\ doomed = {} /\ view = [p \in Procs |-> NoView] /\ [][TNext]_tvars
 
 \* a loser must have left with a lock error, a winner not: checked on the trace itself (constant-level)
 Losers == { i \in DOMAIN Tr : Tr[i].e = "exit" /\ Tr[i].lockerr }
